@@ -369,6 +369,30 @@ pub fn failing_calls_before(rng: &mut crate::rng::Rng, sample: Option<&[u8]>) {
     let _ = guard(|| pm2.to_writer(&mut std::io::Cursor::new(&mut small[..])));
     let d = pmtiles2::Directory::from(vec![pmtiles2::Entry { tile_id: 1, offset: 0, length: 0, run_length: 1 }]);
     let _ = guard(|| d.to_writer(&mut Vec::new(), pmtiles2::Compression::GZip));
+    // directory writers that fail AFTER something was serialised: a refused entry in the middle of a list, a sink that fails,
+    // a sink that is too small (sync and async, directory and directory-tree writer)
+    let mut list: Vec<pmtiles2::Entry> = (0..60u64).map(|k| pmtiles2::Entry { tile_id: 7 + k * 2, offset: k * 11, length: 11, run_length: 1 }).collect();
+    let good = pmtiles2::Directory::from(list.clone());
+    for comp in [pmtiles2::Compression::None, crate::gen::comp(R::CODECS[rng.usize(1, 3)])] {
+        let mut failing = Inst::new(Vec::new());
+        failing.c.fail_from = Some(0);
+        let _ = guard(|| good.to_writer(&mut failing, comp));
+        let mut afailing = AInst::new(Vec::new());
+        afailing.c.fail_from = Some(0);
+        let _ = guard(|| block_on(good.to_async_writer(&mut afailing, comp)));
+        if comp == pmtiles2::Compression::None {
+            let mut tiny = [0u8; 40];
+            let _ = guard(|| good.to_writer(&mut std::io::Cursor::new(&mut tiny[..]), comp));
+        }
+        let mut failing = Inst::new(Vec::new());
+        failing.c.fail_from = Some(0);
+        let _ = guard(|| pmtiles2::util::write_directories(&mut failing, &list, comp, None).map(|v| v.len()));
+    }
+    list[37].length = 0;
+    let bad = pmtiles2::Directory::from(list.clone());
+    let _ = guard(|| bad.to_writer(&mut Vec::new(), pmtiles2::Compression::None));
+    let _ = guard(|| block_on(bad.to_async_writer(&mut futures::io::Cursor::new(Vec::new()), pmtiles2::Compression::GZip)));
+    let _ = guard(|| pmtiles2::util::write_directories(&mut std::io::Cursor::new(Vec::new()), &list, pmtiles2::Compression::None, None).map(|v| v.len()));
     // 2. opens and parses that fail: cut / damaged copies of a valid archive
     if let Some(b) = sample {
         if let Ok(h) = R::header_unpack(b) {
